@@ -472,6 +472,44 @@ fn condition_norule(t: &std::sync::Arc<Table>, rep: &mut Report, th: bool) {
     rep.bounds.push(format!("condition-with-no-rule-operator: {} piecewise trees `F if (A op B) cmp C else G` (op in % << >>; a slice also below two stacked unary operators) x partial_relaxed (PerOperand, None) x flat / deep / deep->flat x every variable x 8 integer points: complete", trees.len()));
 }
 
+/// piecewise expressions with a very long branch: more than 64 operands on the level of the
+/// comparison in the deep form
+fn long_branches(t: &std::sync::Arc<Table>, rep: &mut Report, th: bool) {
+    let ks: Vec<usize> = if th { vec![15, 16, 17, 31, 32, 33, 34, 40, 63, 64, 65, 70] } else { vec![16, 31, 32, 33, 34, 40] };
+    let mut texts: Vec<String> = Vec::new();
+    for &k in &ks {
+        let sum = |v: &str| (1..=k).map(|c| format!("{c}.5*{v}")).collect::<Vec<_>>().join("+");
+        let alt = (1..=k).map(|c| format!("{c}*{}", if c % 2 == 0 { "x" } else { "y" })).collect::<Vec<_>>().join("-");
+        texts.push(format!("x*x if x > 0 else {}", sum("x")));
+        texts.push(format!("{} if x > 0 else x*x", sum("x")));
+        texts.push(format!("x*y if y >= x else {alt}"));
+        texts.push(format!("{alt} if x != y else y*y"));
+        texts.push(format!("{} if x < 2 else {}", sum("y"), sum("x")));
+    }
+    let accs = par_ranges(texts.len() as u64, 1, install_panic_hook, |st, en, acc| {
+        for i in st..en {
+            let text = &texts[i as usize];
+            let SpecResult::Ok(tree) = spec::read(text, t, LitKind::Val) else {
+                println!("MACHINERY-FAILURE property=C18 long-branch text not well-formed: {text}");
+                std::process::exit(2)
+            };
+            acc.states += 1;
+            acc.nontrivial += 1;
+            let vars = tree.vars();
+            for form in FORMS {
+                judge_form(form, &tree, t, text, &vars, acc);
+            }
+            if i % 7 == 0 {
+                acc.sample(json!({"campaign": "long-branches", "text_prefix": text.chars().take(80).collect::<String>()}));
+            }
+        }
+    });
+    for a in accs {
+        rep.absorb(a);
+    }
+    rep.bounds.push(format!("long branches: {} piecewise texts whose longer branch has {ks:?} summands (2 operands each; the deep form keeps them on the level of the comparison) x 5 forms x every variable: complete", texts.len()));
+}
+
 /// `F if A cmp B else G` for all six comparisons, every pair of leaves (the differentiation
 /// variable need not occur in the condition), strict differentiation in all forms
 fn all_comparisons(t: &std::sync::Arc<Table>, rep: &mut Report) {
@@ -591,6 +629,7 @@ pub fn run(tier: Tier) -> i32 {
     condition_arithmetic(&t, &mut rep, th);
     condition_norule(&t, &mut rep, th);
     all_comparisons(&t, &mut rep);
+    long_branches(&t, &mut rep, th);
     if th {
         campaign(&t, Alphabet { leaves: lv(&["x", "y", "2", "1.5"]), uns: vec![], bins: f(&["+", "*", "/", "if", "else", "<", ">"], false) }, &[(5, 0), (6, 0)], |tr, t| well_typed(tr, t) && has_piecewise(tr, t), &mut rep, "piecewise-n6");
         campaign(&t, Alphabet { leaves: lv(&["x", "2"]), uns: vec![], bins: f(&["*", "if", "else", "<", ">"], false) }, &[(7, 0)], |tr, t| well_typed(tr, t) && has_piecewise(tr, t), &mut rep, "nested-piecewise-n7");
